@@ -33,9 +33,20 @@ func ruleFragmentSender(c *Ctx, r *Report) {
 		return
 	}
 	f := litFields(lit)
+	// the header may start as a copy of the whole message's header, of which only the
+	// fragment's own position and size are then overwritten
+	copiedWhole := false
+	for _, ref := range *lit.Referrers() {
+		if st, ok := ref.(*ssa.Store); ok && st.Addr == ssa.Value(lit) {
+			copiedWhole = isFieldLoad(st.Val, "pkg/protocol/handshake.Handshake", "Header")
+		}
+	}
 	for _, whole := range []string{"Type", "Length", "MessageSequence"} {
 		v := f[whole]
 		ok := v != nil && allLeaves(c.Origins(v, 0), func(l ssa.Value) bool { return isFieldLoad(l, hdrT, whole) })
+		if v == nil && copiedWhole {
+			ok = true
+		}
 		r.Check(ok, rule, short(fn)+":"+whole, c.ipos(lit), whole+" copied from the whole message's header", "fragment header field "+whole+" is not copied from the message header")
 	}
 	// FragmentLength = len(contentFragment)
@@ -61,6 +72,54 @@ func ruleFragmentSender(c *Ctx, r *Report) {
 			call := ci.(*ssa.Call)
 			if sameValue(call.Call.Args[1], frag) {
 				okBody = true
+			}
+		}
+		if !okBody {
+			// the header is marshalled and the body appended in a helper that is handed both
+			for _, hc := range findCalls(fn, func(string) bool { return true }) {
+				h := hc.Call.StaticCallee()
+				if h == nil || h.Pkg != fn.Pkg || len(h.Blocks) == 0 {
+					continue
+				}
+				bi, hi := -1, -1
+				for i, a := range hc.Call.Args {
+					if sameValue(a, frag) {
+						bi = i
+					}
+					if u, isU := a.(*ssa.UnOp); isU && u.X == ssa.Value(lit) {
+						hi = i
+					}
+					if a == ssa.Value(lit) {
+						hi = i
+					}
+				}
+				if bi < 0 || hi < 0 || bi >= len(h.Params) || hi >= len(h.Params) {
+					continue
+				}
+				for _, ci := range callsIn(h, nameIs("builtin:append")) {
+					ap := ci.(*ssa.Call)
+					if ap.Call.Args[1] != ssa.Value(h.Params[bi]) {
+						continue
+					}
+					fromHeader := allLeaves(c.Origins(ap.Call.Args[0], 0), func(l ssa.Value) bool {
+						ex, isEx := l.(*ssa.Extract)
+						if !isEx || ex.Index != 0 {
+							return false
+						}
+						mc, isCall := ex.Tuple.(*ssa.Call)
+						if !isCall || !strings.HasSuffix(calleeName(&mc.Call), "handshake.Header).Marshal") {
+							return false
+						}
+						recv := mc.Call.Args[0]
+						if al, isAl := recv.(*ssa.Alloc); isAl {
+							return spilledParam(al) == h.Params[hi]
+						}
+						return recv == ssa.Value(h.Params[hi])
+					})
+					if fromHeader && successValueIs(h, ap) {
+						okBody = true
+					}
+				}
 			}
 		}
 		r.Check(okBody, rule, short(fn)+":body", c.ipos(lit), "the body appended after the header is the measured fragment", "the bytes appended after the fragment header are not the fragment whose length was written")
